@@ -424,7 +424,8 @@ fn oracle_ok(ctx: &mut Ctx, idx: usize, kc: &KCase, b: &Built, r: &SearchAlgorit
         let mut fwd = c.clone();
         fwd.reverse = false;
         oracle_c03_inner(ctx, idx, &fwd, b, r);
-        let stale = reopened && effective_wf(c) != Some(0.0);
+        // (Yen's spur states restart from the initial state whether or not a vertex was re-opened)
+        let stale = !kc.yen && reopened && effective_wf(c) != Some(0.0);
         ctx.rekey_since(n0, &key(if stale { "stale-link-after-reopening" } else { "state-not-accumulated" }));
     }
     // 5. pairwise distinct edge sequences
@@ -615,6 +616,16 @@ pub fn corpus() -> Vec<KCase> {
     let mut b = base_case(vec![(0, 1, 1.0), (1, 2, 1.0), (3, 2, 1.0), (4, 2, 1.0), (5, 2, 1.0)], 6, 0, 2);
     b.term = Term::Size(2);
     v.push(kcase(b, "reverse-search-limit-witness"));
+    // the junction turn of an alternative has no entry in the turn-delay table: neither search ever
+    // evaluates the turn (e2, e3) — vertex 2 is labelled but never expanded — the re-traversal does
+    let mut b = base_case(vec![(0, 1, 1.0), (1, 3, 1.0), (0, 2, 3.0), (2, 3, 2.5)], 4, 0, 3);
+    b.feats.push(("time".into(), FeatK::T(TimeUnit::Seconds), 0.0));
+    let mut delays = [Some(1.0); 8];
+    delays[4] = None; // "left"
+    b.access = Acc::Turn { tu: TimeUnit::Seconds, headings: vec![(0, None), (0, None), (90, None), (0, None)], delays };
+    let mut c = kcase(b, "alternative-failed-witness");
+    c.bf_ok = false;
+    v.push(c);
     v.extend(yen_corpus());
     v
 }
@@ -1103,17 +1114,16 @@ fn run_yen_child(ctx: &mut Ctx, idx: usize, kc: &KCase) -> Vec<Vec<usize>> {
                 ctx.fail(idx, "yens/panic", k.clone());
             }
             if let (Outcome::Ok(_), Some(_), true) = (&plain.outcome, k_eff, inner_target(c).is_some() && reaches_algorithm(c)) {
-                let kind = k.split(' ').next().unwrap_or("");
                 if ex.runs >= 2 {
                     ctx.fail(
                         idx,
-                        &format!("yens/spur-failure-propagated-{}", kind),
+                        "yens/spur-failure-propagated",
                         format!("the plain search answers the query (route of {:?} edges) but Yen returned error '{}' from spur search #{}", plain_len, k, ex.runs - 1),
                     );
                 } else {
                     ctx.fail(
                         idx,
-                        &format!("yens/error-without-spur-search-{}", kind),
+                        "yens/error-without-spur-search",
                         format!("the plain search answers the query (route of {:?} edges) but Yen returned error '{}' before any spur search", plain_len, k),
                     );
                 }
@@ -1414,10 +1424,9 @@ fn run_single_via(ctx: &mut Ctx, idx: usize, kc: &KCase) {
             if let (Outcome::Ok(_), Some(_)) = (&plain.outcome, k_eff) {
                 if inner_target(c).is_some() {
                     let stage = if ex.runs >= 2 && ex.pops.is_empty() { "reverse-search" } else if !ex.pops.is_empty() { "alternative" } else { "first-search" };
-                    let kind = k.split(' ').next().unwrap_or("");
                     ctx.fail(
                         idx,
-                        &format!("ksp/single-via-{}-failed-{}", stage, kind),
+                        &format!("ksp/single-via-{}-failed", stage),
                         format!(
                             "the plain search answers the query ({}) but single-via returned error '{}' (stage {}, {} intersection pops; turn restrictions {:?}; limits {:?})",
                             match &plain.outcome {
